@@ -61,7 +61,22 @@ static bool tg_some_piece_bound_exceeds() {
   return false;
 }
 
+// Box<native integer>: the product coefficient * bound inside propagate_constraint_no_check overflows with an
+// "unknown" result (sub_mul_assign_r -> NaN), which propagate_constraint_check_result() does not expect: PPL_UNREACHABLE
+static bool tg_is_crash(const std::string& cl) { return cl == "crash:SIGSEGV" || cl == "crash:SIGILL" || cl == "crash:SIGABRT" || cl == "crash:SIGBUS"; }
+static bool tg_huge(const Q& v) { return BT<BTy>::bits > 0 && !BT<BTy>::is_float && abs(v) >= pow2(BT<BTy>::bits - 2); }
+static bool tg_box_has_huge_bound(const Cell& c) {
+  if (c.bot) return true;        // empty but unmarked: the interval bounds are invisible in the class
+  for (int k = 0; k < c.n; ++k) { ref::Sup lo = tg_inf(c, k), hi = tg_sup(c, k); if ((lo.status == 1 && tg_huge(lo.value)) || (hi.status == 1 && tg_huge(hi.value))) return true; }
+  return false;
+}
+
 static std::string auto_trigger(const std::string& cl) {
+  if (KIND == K_BOX && BT<BTy>::bits > 0 && !BT<BTy>::is_float && tg_is_crash(cl) && CUR_OP && CUR_CLS >= 0) {
+    const std::string& f = CUR_OP->args.fam;
+    if ((f == "refine" || f == "genlhs" || f == "genvar" || tg_starts(CUR_OP->name, "refine_with_constraints") || tg_starts(CUR_OP->name, "bounded_affine_image")) && tg_box_has_huge_bound(CL[CUR_CLS]))
+      return "propagated_product_overflows_bound_type";
+  }
   if (!EXACT_T) {
     // overflow inside add_mul_assign_r / sub_mul_assign_r / neg_assign_r(ROUND_DOWN) stores NaN or -infinity into the matrix
     if (LAST_BAD && (cl == "invariant:matrix-entry-nan-or-minus-infinity" || cl == "invariant:OK()" || cl == "enclosure:result-loses-points")) return "result_has_nan_or_minus_infinity_entry";
@@ -213,5 +228,10 @@ static std::string auto_trigger(const std::string& cl) {
 static std::string trigger_for(const TrigIn& t) { return auto_trigger(t.clause); }
 static std::string trigger_ctor(int sk, int cc, int want_or_piece, int after) {
   (void)sk; (void)cc; (void)want_or_piece; (void)after;
+  return auto_trigger("enclosure:result-loses-points");
+}
+static std::string trigger_ctor_crash(int sk, const std::vector<ZC>& rows, const std::string& cl) {
+  if (KIND == K_BOX && BT<BTy>::bits > 0 && !BT<BTy>::is_float && tg_is_crash(cl) && sk <= 1)
+    for (size_t i = 0; i < rows.size(); ++i) if (tg_huge(Q(rows[i].e.b))) return "propagated_product_overflows_bound_type";
   return "none";
 }
